@@ -39,7 +39,7 @@ func init() {
 		Technique: "typestate/loop-shape analysis of the counting loop (membership test dominates acceptance, insertion on the counting path, collection scope), key-schema analysis of the roster families, must-facts at the acceptance and notification sites",
 		Explanation: "D1 roster keys are 'u'|'n' ‖ cid(32, guarded) ‖ vector(1) ‖ counter and 'r' ‖ cid ‖ index: scans per cid / (cid, vector) are exact; D2 CommitContainerListUpdate deletes every old 'n' and 'r' key of the cid, and for every scanned 'u' key deletes it and puts 'n'‖key[1:] with the same value, the old-'n' scan preceding the first 'n' put; " +
 			"D3 distinct-principal counting: in VerifyPlacementSignatures the signature check is reachable only through the exhausted exit of a membership loop comparing the candidate member key with a collection that outlives one signature iteration and is initialised per vector; the member key is inserted and the counter incremented only on the success branch; D3b a vector is accepted only under counter == REP read from family 'r' of the same cid, the nodes are scanned for the same vector index that selects sigs[i], and true is returned only after the REP scan is exhausted; " +
-			"D4 SubmitObjectPut notifies only if VerifyPlacementSignatures(cid read from the meta map, the meta bytes, the signatures) returned true and the meta flag of that cid is present. D6 each of the five loops of the commit is reached on every normal path (REP writes only for a non-nil list), ends only on exhaustion and no iteration goes round its operation. D7 the candidate member is an item of the scan of this vector's members only (a candidate list must start empty inside the per-vector loop and receive only items of that scan). M: counting, insertion and acceptance are guarded by the right side of their tests (edge-guard instead of dominance); the roster counter starts at the decoded last pending key exactly when there is one and at 0 otherwise, +1 per item. R6: a REP number is stored under its position in the submitted list.",
+			"D4 SubmitObjectPut notifies only if VerifyPlacementSignatures(cid read from the meta map, the meta bytes, the signatures) returned true and the meta flag of that cid is present. D6 each of the five loops of the commit is reached on every normal path (REP writes only for a non-nil list), ends only on exhaustion and no iteration goes round its operation. D7 the candidate member is an item of the scan of this vector's members only (a candidate list must start empty inside the per-vector loop and receive only items of that scan). M: counting, insertion and acceptance are guarded by the right side of their tests (edge-guard instead of dominance); the roster counter starts at the decoded last pending key exactly when there is one and at 0 otherwise, +1 per item. R6: a REP number is stored under its position in the submitted list. R9: the signatures of a vector are examined from sigs[i][0] to sigs[i][len−1]; a vector is refused for its length only below REP.",
 		NotCovered: "the BE16 counter encoding across 127/255/256 (counterToBytes/counterFromBytes are value-level byte manipulations), submission order equality with a model.",
 		Run:        runC14,
 	})
@@ -1243,6 +1243,43 @@ func checkDistinctCounting(cx *CheckCtx, fn *ssa.Function) {
 				}
 			}
 		}
+	}
+	// … and every signature of the vector gets its chance: the position of the examined signature runs from
+	// 0 to len(sigs[i]) − 1 (a vector with its valid signatures behind a few that do not count is still
+	// a vector with REP valid signatures)
+	if okVec {
+		okAllSigs, whySigs := false, "the examined signature is not an element of sigs[i] selected by a loop variable"
+		if u, isU := stripConv(sig).(*ssa.UnOp); isU {
+			if ia, isIA := u.X.(*ssa.IndexAddr); isIA {
+				idxT := tb.Term(tb.root, ia.Index)
+				vecT := tb.Term(tb.root, ia.X)
+				var phi *Term
+				idxT.walk(func(x *Term) bool {
+					if x.Op == "phi" && phi == nil {
+						phi = x
+					}
+					return true
+				})
+				if phi != nil {
+					if start, step, cond, okLV := loopVarOf(tb, phi); okLV && step == 1 {
+						off := tb.binop(token.SUB, idxT, phi, intType)
+						lo := tb.binop(token.ADD, start, off, intType)
+						hi := boundOf(tb, phi, cond, true)
+						wantHi := tb.binop(token.SUB, tb.mk("len", "", 0, vecT), tb.constInt(1), intType)
+						z, isZ := lo.IntConst()
+						switch {
+						case !isZ || z != 0:
+							whySigs = "the first examined signature is not sigs[i][0]"
+						case hi == nil || tb.binop(token.ADD, hi, off, intType) != wantHi:
+							whySigs = "the last examined signature is not sigs[i][len(sigs[i])−1]"
+						default:
+							okAllSigs, whySigs = true, ""
+						}
+					}
+				}
+			}
+		}
+		cx.decide(okAllSigs, "acceptance", key+"/every-signature", "the signatures of a vector are examined from the first to the last", "not every signature of a vector is examined ("+whySigs+"): a vector that does carry REP valid signatures of distinct members is refused when some of them stand behind signatures that do not count", w.pos(fn.Pos()))
 	}
 	// … and the candidate member comes from that scan only: it is the current item of the
 	// Nodes(cid, i) iterator, or an element of a list that starts empty inside the per-vector
